@@ -663,7 +663,22 @@ def r17_11(chk):
     chk.floor("R17.11", 1, "one deserialiser")
 
 
+def r17_12(chk):
+    chk.rule("R17.12", "every record of a flat file reaches the db: the GenBank loader iterates over all records the parser yields -- it does not take one element (`list(parser(path))[0]`, next(...)) of a stream that can hold several LOCUS records")
+    m = chk.repo.module(DB)
+    fn = m.func("_db_from_genbank")
+    calls = [c for c in walk_no_nested(fn) if isinstance(c, ast.Call) and (call_name(c) or "").split(".")[-1] in ("minimal_parser", "rich_parser", "iter_genbank_records", "MinimalGenbankParser")]
+    if not calls:
+        raise AnalysisError("_db_from_genbank: parser call not found")
+    for c in calls:
+        looped = any(isinstance(f, (ast.For, ast.comprehension)) and any(x is c for x in ast.walk(f.iter)) for f in ast.walk(fn))
+        picked = [s_ for s_ in ast.walk(fn) if isinstance(s_, ast.Subscript) and isinstance(s_.slice, ast.Constant) and any(x is c for x in ast.walk(s_.value))] + [n for n in ast.walk(fn) if isinstance(n, ast.Call) and call_name(n) == "next" and any(x is c for x in ast.walk(n))]
+        chk.decide(looped and not picked, "R17.12", key(m, "_db_from_genbank", "all parsed records loaded"), m.loc(c), "iterates over the parser", f"`{norm(picked[0])[:60] if picked else norm(c)}` takes one record of the parsed file: the features of every further LOCUS record are silently dropped")
+    chk.floor("R17.12", 1, "one loader")
+
+
 def run(chk):
+    r17_12(chk)
     r17_11(chk)
     r17_10(chk)
     r17_9(chk)
